@@ -81,7 +81,15 @@ def run_case(case):
             val = int.from_bytes(bytes(case["req"]), "little")
             gen = ds.SetEventFilters(dev, inst, ft(val))
         elif seq == "queryfilter":
-            gen = ds.QueryEventFilters(dev, inst, filter_types()[case["ftype"]])
+            ft = filter_types()[case["ftype"]]
+            if case.get("as_module"):
+                # the documented other form: the instance-type module (anything that carries an InstanceEventFilter)
+                import types as _types
+                mod = _types.ModuleType("vendor_" + case["ftype"])
+                mod.InstanceEventFilter = ft
+                mod.instance_type = 9
+                ft = mod
+            gen = ds.QueryEventFilters(dev, inst, ft)
         elif seq == "setscheme":
             from dali.device.general import EventScheme
             s = case["req"][0]
@@ -228,9 +236,9 @@ def cases(tier, seed):
                 tgt = [1, rng.randrange(2)]
                 cs.append({"seq": "setfilter", "bus": _bus([dev], rng, stale=stale), "target": tgt, "ftype": name,
                            "req": list(v.to_bytes(3, "little"))})
-        for _ in range(10 if tier == "quick" else 100):
+        for j_ in range(10 if tier == "quick" else 100):
             dev = {"short": rng.randrange(64), "status": 0, "inst": [_inst(rng, width=w, filt=list((rng.getrandbits(nb)).to_bytes(3, "little")))]}
-            cs.append({"seq": "queryfilter", "bus": _bus([dev], rng), "target": [1, 0], "ftype": name})
+            cs.append({"seq": "queryfilter", "bus": _bus([dev], rng), "target": [1, 0], "ftype": name, "as_module": j_ % 2})
         for at in range(1, 4):
             for fk in ("silent", "err", "errsame"):
                 dev = {"short": 3, "status": 0, "inst": [_inst(rng, width=w)]}
